@@ -233,8 +233,16 @@ def run_case(case):
     target = it.make_leaf(set(ttags), iteration.RowSequence(rows), name="T")
     registry = {"T": rows}
 
+    def rows_of(leaf, reg):
+        # read what the leaf object actually holds (two leaves may share a name - and compare
+        # equal - while holding different rows); fall back to the registry by name
+        p = leaf.payload
+        if isinstance(p, iteration.RowIterable):
+            return list(p)
+        return reg[leaf.name]
+
     def leaf_rows(leaf):
-        return registry[leaf.name]
+        return rows_of(leaf, registry)
 
     _objs.clear()
     if case.get("prior_use") is not None:
@@ -275,7 +283,7 @@ def run_case(case):
         return out
 
     def leaf_rows2(leaf):
-        return registry_new[leaf.name]
+        return rows_of(leaf, registry_new)
 
     mon.COUNTERS.clear()
     try:
